@@ -54,7 +54,9 @@ def _fmtnum(rng, x):
 def gen_reader(rng, big=False):
     n = rng.choice([1, 2, 2, 3, 4, 5, 6, 8, 12, 30 if big else 9])
     xs = set()
-    while len(xs) < n: xs.add(_num(rng))
+    # separations in other units (metres: 1e-10) - the spacing of the rows is then far below any absolute tolerance
+    scale = rng.choice([1e-10, 1e-9, 1e-12]) if rng.random() < 0.15 else 1.0
+    while len(xs) < n: xs.add(_num(rng) * scale)
     rows = [(x, _num(rng)) for x in xs]
     if rng.random() < 0.12 and n >= 2:          # a duplicated x with another y (tuple order decides)
         rows.append((rows[0][0], _num(rng)))
@@ -82,7 +84,7 @@ def gen_reader(rng, big=False):
     for a, b in zip(sx, sx[1:]):
         cands += [(a + b) / 2, a + (b - a) * rng.random(), a + (b - a) / 64.0]
     span = (sx[-1] - sx[0]) or 1.0
-    cands += [sx[0] - span * 0.5, sx[-1] + span * 0.25, sx[0] - 1e-9 * (abs(sx[0]) + 1), sx[-1] + 1e-9 * (abs(sx[-1]) + 1), sx[-1] + 100.0]
+    cands += [sx[0] - span * 0.5, sx[-1] + span * 0.25, sx[0] - 1e-9 * (abs(sx[0]) + scale), sx[-1] + 1e-9 * (abs(sx[-1]) + scale), sx[-1] + 100.0 * scale]
     nq = rng.randint(6, 24)
     queries = [rng.choice(cands) for _ in range(nq)]
     if rng.random() < 0.5:      # two ascending sweeps on the same reader
